@@ -549,6 +549,8 @@ class Entity:
         self.nodrain = False
         self.drained: dict[str, bool] = {}
         self.lk = None  # LinkCfg of this entity's pair (None: the link's global settings)
+        self.lk_by: dict = {}  # handler key -> LinkCfg (several transactions between the same two entities, C11)
+        self.tape_by: dict = {}  # handler key -> tape
         self.peer: "Entity | None" = None  # the entity at the other end of this entity's link
         self.tape = world.tape  # tape deciding link faults / pacing of what this entity sends
 
@@ -593,9 +595,9 @@ class Link:
         self.hit_log: list[tuple] = []
         self.hook = None  # scripted link policy (C13): callable(src_ent, dst_ent, emitted, key)
 
-    def send(self, src_ent: Entity, em: Emitted) -> None:
+    def send(self, src_ent: Entity, em: Emitted, hk: str | None = None) -> None:
         w = self.w
-        t = src_ent.tape
+        t = src_ent.tape_by.get(hk, src_ent.tape)
         dst = src_ent.peer
         self.sent += 1
         key = f"{src_ent.name}>{dst.name} " + em.kind
@@ -622,7 +624,7 @@ class Link:
             return
         lat = w.cfg.lat_ms
         fault = None
-        L = src_ent.lk or self  # link fault settings: per entity pair when set (C11), else global
+        L = src_ent.lk_by.get(hk) or src_ent.lk or self  # fault settings: per handler / per entity pair when set (C11), else global
         if L.enabled and (L.budget is None or L.budget > 0):
             num, den = L.rate
             if t.chance(num, den, f"fault? {key}"):
@@ -969,7 +971,7 @@ class World:
         for m in self.monitors:
             m.on_call(self, rec)
         for e in rec.emitted:
-            self.link.send(ent, e)
+            self.link.send(ent, e, hk)
         return rec
 
     # -- shell: arrival of bytes at an entity
@@ -1017,13 +1019,13 @@ class World:
                         if f:
                             f(self, pdu, ack)
                     rawo = bytes(ack.pack())
-                    self.link.send(ent, Emitted(rawo, parse_pdu(rawo), ack.packet_len))
+                    self.link.send(ent, Emitted(rawo, parse_pdu(rawo), ack.packet_len), hk)
                 elif kind == "FIN" and pdu.transmission_mode == ACK:
                     conf = copy.copy(pdu.pdu_header.pdu_conf)
                     conf.direction = Direction.TOWARDS_RECEIVER
                     ack = AckPdu(conf, DirectiveType.FINISHED_PDU, pdu.condition_code, TransactionStatus.TERMINATED)
                     rawo = bytes(ack.pack())
-                    self.link.send(ent, Emitted(rawo, parse_pdu(rawo), ack.packet_len))
+                    self.link.send(ent, Emitted(rawo, parse_pdu(rawo), ack.packet_len), hk)
                 return None
             live = ent.live_tid[hk]
             if live is not None and live != tid and h.state != CfdpState.IDLE:
@@ -1080,7 +1082,7 @@ class World:
         if self.pacing == "regular":
             d = 1 if busy else p
         else:
-            d = (1, 7, p, 4 * p)[ent.tape.choose(4, f"pace {ent.name}.{hk}")]
+            d = (1, 7, p, 4 * p)[ent.tape_by.get(hk, ent.tape).choose(4, f"pace {ent.name}.{hk}")]
         self.push(self.clock.t + d, ("poll", ent, hk))
 
     def start_polls(self) -> None:
